@@ -375,7 +375,7 @@ pub fn run_all(args: &Args, rep: &mut Report) -> (u64, u64, u64) {
     let mut capped = false;
     for sc in &scs {
         let mut st = Stats::default();
-        let cfg = ExploreCfg { bound, deadline: Instant::now() + Duration::from_secs(args.tier.pick(5, 150)), max_schedules: u64::MAX, stop_on_violation: true };
+        let cfg = ExploreCfg { bound, deadline: Instant::now() + Duration::from_secs(args.tier.pick(5, 100)), max_schedules: u64::MAX, stop_on_violation: true };
         explore(&mut pool, &serde_json::to_string(sc).unwrap(), &cfg, &mut st);
         tot.0 += st.schedules;
         tot.1 += st.tree_nodes;
